@@ -135,7 +135,7 @@ async fn storage_case(case: u64, rng: &mut Rng, st: &mut Stats) {
             match coll.get(id).await {
                 Err(e) => {
                     st.violation(
-                        format!("{BRICK}/collection_get"),
+                        format!("{BRICK}/collection_get/valid"),
                         json!({"id": id, "when": $what, "error": format!("{e:?}"),
                             "expected": brief(&model.get(&id), 2500), "context": sc.ctx()}),
                     );
@@ -261,7 +261,7 @@ async fn storage_case(case: u64, rng: &mut Rng, st: &mut Stats) {
                             // did it brick the document?
                             if let Err(e) = coll.get(id).await {
                                 st.violation(
-                                    format!("{BRICK}/collection_get"),
+                                    format!("{BRICK}/collection_get/{class}"),
                                     json!({"id": id, "after": "accepted invalid update", "error": format!("{e:?}"), "context": sc.ctx()}),
                                 );
                             }
@@ -319,7 +319,7 @@ async fn storage_case(case: u64, rng: &mut Rng, st: &mut Stats) {
                             );
                             if let Err(e) = coll.get(new_id).await {
                                 st.violation(
-                                    format!("{BRICK}/collection_get"),
+                                    format!("{BRICK}/collection_get/{class}"),
                                     json!({"id": new_id, "after": "accepted invalid add", "error": format!("{e:?}"), "context": sc.ctx()}),
                                 );
                             }
@@ -345,7 +345,7 @@ async fn storage_case(case: u64, rng: &mut Rng, st: &mut Stats) {
                         match coll.get(id).await {
                             Err(e) => {
                                 st.violation(
-                                    format!("{BRICK}/collection_get"),
+                                    format!("{BRICK}/collection_get/{class}"),
                                     json!({"id": id, "class": class, "field": name, "type": brief(&ft, 800),
                                         "value": brief(&w, 1500), "error": format!("{e:?}"), "context": sc.ctx()}),
                                 );
@@ -515,7 +515,7 @@ async fn storage_budget_case(case: u64, st: &mut Stats) {
                 st.count(&format!("storage_budget_at_limit_roundtrip:{kind}"));
             }
             Ok(_) => st.violation("C13/storage/get_differs_from_written", json!({"monitor": "storage_budget", "kind": kind, "when": when, "config": label})),
-            Err(e) => st.violation(format!("{BRICK}/collection_get"), json!({"monitor": "storage_budget", "kind": kind, "when": when, "config": label, "error": format!("{e:?}")})),
+            Err(e) => st.violation(format!("{BRICK}/collection_get/valid"), json!({"monitor": "storage_budget", "kind": kind, "when": when, "config": label, "error": format!("{e:?}")})),
         };
         check(coll.get(id).await, st, "after add");
         match coll.update(id, BTreeMap::from([("v".to_string(), over.clone())])).await {
@@ -529,6 +529,139 @@ async fn storage_budget_case(case: u64, st: &mut Stats) {
             ),
         }
         check(coll.get(id).await, st, "after rejected update");
+    }
+    let _ = db.close().await;
+}
+
+/// Large documents (around the 256 KiB chunk size and the 2000 KiB object limit), compressible
+/// and incompressible, through add / get / update / cold reopen.
+async fn storage_large_case(case: u64, rng: &mut Rng, st: &mut Stats) {
+    let cfg = CONFIGS[(case % 4) as usize];
+    let label = cfg_label(cfg);
+    let fields = vec![("blob".to_string(), Ft::Bytes), ("words".to_string(), Ft::Option(Box::new(Ft::Array(vec![Ft::Text]))))];
+    let schema = build_schema(&fields, 1).unwrap();
+    let store = Arc::new(InMemory::new());
+    let Ok(db) = AndaDB::create(store.clone(), db_config(cfg)).await else {
+        return st.inconclusive("harness: db create");
+    };
+    let Ok(coll) = db.create_collection(schema.clone(), coll_config(), async |_| Ok(())).await else {
+        return st.inconclusive("harness: create_collection");
+    };
+    const K: usize = 1024;
+    let sizes = [256 * K - 64, 256 * K - 8, 256 * K, 256 * K + 1, 700 * K, 1990 * K, 1999 * K + 1000, 2001 * K];
+    let mut written: Vec<(u64, Fv, Option<Fv>)> = vec![];
+    for round in 0..3 {
+        st.eval();
+        let n = sizes[((case / 4) as usize + round * 3) % sizes.len()];
+        let blob = match rng.below(3) {
+            0 => rng.bytes(n),
+            1 => vec![0u8; n],
+            _ => (0..n).map(|i| (i % 251) as u8).collect(),
+        };
+        let words = if rng.bool() {
+            Some(Fv::Array((0..rng.usize(2000)).map(|i| Fv::Text(format!("word{}", i % 17))).collect()))
+        } else {
+            None
+        };
+        let mut doc = Document::new(coll.schema());
+        doc.set_id(0);
+        let blob = Fv::Bytes(blob);
+        if doc.set_field("blob", blob.clone()).is_err() || words.as_ref().map(|w| doc.set_field("words", w.clone()).is_err()).unwrap_or(false) {
+            st.violation("C13/valid_rejected/set_field", json!({"monitor": "storage_large", "bytes": n}));
+            return;
+        }
+        match coll.add(doc).await {
+            Ok(id) => {
+                st.count("storage_large_adds");
+                st.max("max_large_document_bytes", n as u64);
+                written.push((id, blob, words));
+            }
+            // the documented object size limit: a refusal at write time, nothing to read back
+            Err(_) => st.count("storage_large_refused_at_write"),
+        }
+    }
+    let check = async |coll: &Collection, st: &mut Stats, when: &str| {
+        for (id, blob, words) in &written {
+            match coll.get(*id).await {
+                Err(e) => st.violation(
+                    format!("{BRICK}/collection_get/valid"),
+                    json!({"monitor": "storage_large", "config": label, "when": when, "error": format!("{e:?}"),
+                        "blob_len": if let Fv::Bytes(b) = blob { b.len() } else { 0 }}),
+                ),
+                Ok(d) => {
+                    let ok = d.get_field("blob").map(|b| fv_eq(b, blob)).unwrap_or(false)
+                        && match (d.get_field("words"), words) {
+                            (None, None) => true,
+                            (Some(a), Some(b)) => fv_eq(a, b),
+                            _ => false,
+                        };
+                    if ok {
+                        st.count("storage_large_roundtrips");
+                        st.count(&format!("storage_roundtrip:{label}"));
+                    } else {
+                        st.violation(
+                            "C13/storage/get_differs_from_written",
+                            json!({"monitor": "storage_large", "config": label, "when": when,
+                                "blob_len": if let Fv::Bytes(b) = blob { b.len() } else { 0 }}),
+                        );
+                    }
+                }
+            }
+        }
+    };
+    check(&coll, st, "warm").await;
+    let _ = coll.flush(1).await;
+    drop(coll);
+    let _ = db.close().await;
+    drop(db);
+    let Ok(db) = AndaDB::connect(store, db_config(cfg)).await else {
+        return st.violation("C13/storage/reopen_failed", json!({"monitor": "storage_large"}));
+    };
+    match db.open_or_create_collection(schema, coll_config(), async |_| Ok(())).await {
+        Ok(coll) => check(&coll, st, "cold").await,
+        Err(e) => st.violation("C13/storage/reopen_collection_failed", json!({"monitor": "storage_large", "error": format!("{e:?}")})),
+    }
+    let _ = db.close().await;
+}
+
+/// The `vector_untyped_case` scenario through Collection::update / get.
+async fn storage_vector_untyped_case(case: u64, rng: &mut Rng, st: &mut Stats) {
+    let cfg = CONFIGS[(case % 4) as usize];
+    let (ft, v) = vector_in_untyped_value(rng);
+    let Ok(schema) = build_schema(&[("v".to_string(), ft.clone())], 1) else {
+        return st.inconclusive("harness: schema");
+    };
+    let Ok(db) = AndaDB::create(Arc::new(InMemory::new()), db_config(cfg)).await else {
+        return st.inconclusive("harness: db create");
+    };
+    let Ok(coll) = db.create_collection(schema, coll_config(), async |_| Ok(())).await else {
+        return st.inconclusive("harness: create_collection");
+    };
+    let mut doc = Document::new(coll.schema());
+    doc.set_id(0);
+    let mut g = G { rng: &mut *rng, boundary: false };
+    let first = gen_valid(&ft, &mut g, false);
+    if doc.set_field("v", first).is_err() {
+        return st.inconclusive("harness: seed document refused");
+    }
+    let Ok(id) = coll.add(doc).await else {
+        return st.inconclusive("harness: seed add refused");
+    };
+    st.eval();
+    match coll.update(id, BTreeMap::from([("v".to_string(), v.clone())])).await {
+        Err(_) => st.count("grey_rejected:collection_update"),
+        Ok(_) => {
+            st.count(&format!("grey_accepted:collection_update:{VECTOR_UNTYPED}"));
+            if let Err(e) = coll.get(id).await {
+                violation_once(
+                    st,
+                    format!("{BRICK}/collection_get/{VECTOR_UNTYPED}"),
+                    json!({"id": id, "type": brief(&ft, 300), "value": brief(&v, 400), "config": cfg_label(cfg),
+                        "error": format!("{e:?}"),
+                        "note": "the document can no longer be read, updated or removed through the collection"}),
+                );
+            }
+        }
     }
     let _ = db.close().await;
 }
@@ -672,22 +805,28 @@ fn main() {
     run.assume("JSON null directly under Option and Some(None) are plain-serde-indistinguishable from None and are not generated as valid");
     let t = run.tier;
     if run.wants("pairs") {
-        run.parallel("pairs", t.pick(24_000, 3_000_000), 0.45, pair_case);
+        run.parallel("pairs", t.pick(40_000, 4_000_000), 0.45, pair_case);
     }
     if run.wants("budget") {
-        run.parallel("budget", t.pick(70, 2_100), 0.2, budget_case);
+        run.parallel("budget", t.pick(140, 2_800), 0.2, budget_case);
     }
     if run.wants("typed") {
-        run.parallel("typed", t.pick(48, 4_000), 0.3, |c, rng, st| typed_case(c, rng, st, t.pick(6, 12), c % 4 == 0));
+        run.parallel("typed", t.pick(96, 6_000), 0.3, |c, rng, st| typed_case(c, rng, st, t.pick(6, 12), c % 4 == 0));
     }
     if run.wants("upgrade") {
-        run.parallel("upgrade", t.pick(1_500, 150_000), 0.35, |c, rng, st| upgrade_case(c, rng, st, false));
+        run.parallel("upgrade", t.pick(3_000, 250_000), 0.35, |c, rng, st| upgrade_case(c, rng, st, false));
         // own section: its (candidate-defect) alarm must not cut the exploration above short
-        run.parallel("upgrade_nested_retype", t.pick(150, 3_000), 0.2, |c, rng, st| upgrade_case(c, rng, st, true));
+        run.parallel("upgrade_nested_retype", t.pick(300, 6_000), 0.2, |c, rng, st| upgrade_case(c, rng, st, true));
     }
     if run.wants("storage") {
-        run.parallel("storage", t.pick(1_600, 120_000), 0.6, |c, rng, st| block_on(storage_case(c, rng, st)));
+        run.parallel("storage", t.pick(4_000, 400_000), 0.6, |c, rng, st| block_on(storage_case(c, rng, st)));
         run.parallel("storage_budget", t.pick(8, 200), 0.5, |c, _rng, st| block_on(storage_budget_case(c, st)));
+        run.parallel("storage_large", t.pick(16, 400), 0.5, |c, rng, st| block_on(storage_large_case(c, rng, st)));
+    }
+    if run.wants("vector_untyped") {
+        // own sections: their (candidate-defect) alarm must not cut other exploration short
+        run.parallel("vector_untyped", t.pick(16, 64), 0.3, vector_untyped_case);
+        run.parallel("storage_vector_untyped", t.pick(8, 32), 0.3, |c, rng, st| block_on(storage_vector_untyped_case(c, rng, st)));
     }
     if t == vcore::Tier::Thorough && run.wants("miri") {
         miri_run(&mut run);
@@ -734,6 +873,8 @@ fn main() {
         run.floor(&format!("storage_roundtrip:{}", cfg_label(c)), 500);
     }
     run.floor("storage_updates", 500);
+    run.floor("storage_large_roundtrips", 40);
+    run.floor("storage_large_refused_at_write", 1);
     run.floor("storage_cold_reads", 1_000);
     run.floor("invalid_rejected:collection_update", 300);
     run.floor("invalid_rejected:collection_add", 200);
